@@ -9,6 +9,7 @@ package main
 // Non-escaping locals are Go-side cells.
 
 import (
+	"fmt"
 	"go/types"
 	"sort"
 	"strings"
@@ -48,11 +49,67 @@ func canonKey(t types.Type) string {
 
 // heapSorts remembers the sort of each heap array key.
 func (x *Exec) heapArr(st *State, key string, s *Sort) *Term {
+	if x.heapReads != nil {
+		x.heapReads = append(x.heapReads, heapRead{st, key})
+	}
 	if t, ok := st.heap[key]; ok {
 		return t
 	}
-	x.heapSort[key] = s
+	if _, known := x.heapSort[key]; !known {
+		x.heapSort[key] = s
+		x.entryHeapFacts(key, s)
+	}
 	return x.ctx.Const("H0_"+key, s)
+}
+
+const offsetAssumption = "input slices (parameters, values in the entry heap, results of assumed externs) start at offset 0 of their backing array: distinct input slices are identical windows or disjoint"
+
+type heapRead struct {
+	st  *State
+	key string
+}
+
+// entryHeapFacts: references stored in the entry heap were allocated before the call.
+func (x *Exec) entryHeapFacts(key string, s *Sort) {
+	n := len(x.facts)
+	if strings.HasSuffix(key, "#off") {
+		// input slices start at offset 0 of their backing array (assumption: no partially overlapping input slices)
+		arr := x.ctx.Const("H0_"+key, s)
+		var idx []*Term
+		srt := s
+		cur := arr
+		for srt.Kind == SArray {
+			v := BoundVar(fmt.Sprintf("i%d", len(idx)), srt.Key)
+			idx = append(idx, v)
+			cur = Select(cur, v)
+			srt = srt.Val
+		}
+		if srt.Kind == SInt {
+			x.facts = append(x.facts, Forall(idx, Eq(cur, IntLit(0)), []*Term{cur}))
+			x.trusted[offsetAssumption] = true
+		}
+	}
+	x.refBound(x.ctx.Const("H0_"+key, s), 0)
+	x.perm = append(x.perm, x.facts[n:]...)
+	x.facts = x.facts[:n]
+}
+
+// refBound asserts allocId(v) <= bound for every Ref stored (at any index) in array term arr.
+func (x *Exec) refBound(arr *Term, bound int) {
+	var idx []*Term
+	srt := arr.Sort
+	cur := arr
+	for srt.Kind == SArray {
+		v := BoundVar(fmt.Sprintf("i%d", len(idx)), srt.Key)
+		idx = append(idx, v)
+		cur = Select(cur, v)
+		srt = srt.Val
+	}
+	if srt.Kind != SRef || len(idx) == 0 {
+		return
+	}
+	x.useAxioms("alloc")
+	x.facts = append(x.facts, Forall(idx, Le(x.ctx.App("allocId", IntSort, cur), IntLit(int64(bound))), []*Term{cur}))
 }
 
 // liftSort lifts sort s over the array indices in path.
@@ -229,6 +286,17 @@ func (x *Exec) zeroOfSort(s *Sort) *Term {
 	case SRef:
 		return x.null()
 	case SArray:
+		if s.Val.Kind == SRef || s.Val.Kind == SStr || s.Val.Kind == SArray {
+			// cvc5 only accepts values as constant-array defaults: use a named array with a defining axiom
+			name := "zarr$" + sanitize(s.String())
+			c := x.ctx.Const(name, s)
+			if !x.zarrSeen[name] {
+				x.zarrSeen[name] = true
+				i := BoundVar("i", s.Key)
+				x.perm = append(x.perm, Forall([]*Term{i}, Eq(Select(c, i), x.zeroOfSort(s.Val)), []*Term{Select(c, i)}))
+			}
+			return c
+		}
 		return ConstArray(s, x.zeroOfSort(s.Val))
 	}
 	panic("zeroOfSort")
